@@ -160,6 +160,16 @@ impl EncodingBuilder {
             // Calculate entry size: 1 (key_count) + 5 (file_size) + 16 (content_key) + 16 * key_count (encoding_keys)
             let entry_size = 1 + 5 + 16 + (16 * entry_data.encoding_keys.len());
 
+            // An entry never spans pages and its key count is one byte: an entry
+            // that does not fit an empty page cannot be written
+            if entry_size > page_size || entry_data.encoding_keys.len() > usize::from(u8::MAX) {
+                return Err(EncodingError::EntryTooLarge {
+                    key_count: entry_data.encoding_keys.len(),
+                    entry_size,
+                    page_size,
+                });
+            }
+
             // Check if adding this entry would exceed page size
             if current_page_size + entry_size > page_size && !current_page_entries.is_empty() {
                 // Finalize current page
@@ -773,6 +783,41 @@ mod tests {
             .build()
             .expect("Failed to build with trailing ESpec");
         assert!(file_with_trailing.trailing_espec.is_some());
+    }
+
+    #[test]
+    fn test_ckey_entry_larger_than_a_page_is_rejected() {
+        // An entry is 22 + 16 * n bytes: 62 keys fit a 1 KiB page, 63 do not
+        for (n, fits) in [(62u8, true), (63, false)] {
+            let keys: Vec<EncodingKey> = (0..n)
+                .map(|i| EncodingKey::from_bytes([i + 1; 16]))
+                .collect();
+            let mut builder = EncodingBuilder::new().with_page_sizes(1, 1);
+            builder.add_ckey_entry(CKeyEntryData {
+                content_key: ContentKey::from_bytes([7u8; 16]),
+                file_size: 10,
+                encoding_keys: keys.clone(),
+            });
+            builder.add_ekey_entry(EKeyEntryData {
+                encoding_key: keys[0],
+                espec: "z".to_string(),
+                file_size: 5,
+            });
+            let built = builder.build();
+            if fits {
+                let data = built
+                    .expect("Failed to build encoding file")
+                    .build()
+                    .expect("Failed to serialize");
+                let parsed = EncodingFile::parse(&data).expect("Failed to parse");
+                assert_eq!(
+                    parsed.find_all_encodings(&ContentKey::from_bytes([7u8; 16])),
+                    keys
+                );
+            } else {
+                assert!(matches!(built, Err(EncodingError::EntryTooLarge { .. })));
+            }
+        }
     }
 
     #[test]
